@@ -211,19 +211,22 @@ def gen_shape(s, tier, rng, light):
     # partial variants
     combos = [(sb, se) for sb in range(0, n + 1) for se in range(0, n + 1 - sb)]
     for sb, se in some(combos, 4):
-        top = n - sb + 1 if (n <= 3 or tier == "thorough") else n - sb - se + 1
-        ms = list(range(0, max(top, 0)))
-        neg = sorted({-1, -sb - 1, -n - sb - 1} - {0})
-        for m in some(ms, 2) + (neg if n <= 3 and not light else [rng.choice(neg)]):
+        # documented domain 0 <= mode < ndim - skip_begin - skip_end, plus one mode whose axis does not exist (rejected).
+        # Requests where the moved axis overlaps the skipped trailing / leading block are garbage-in (their outcome is an
+        # accident of the implementation, e.g. whether trailing sizes are read before or after the move): not generated.
+        ms = list(range(0, max(n - sb - se, 0))) + [n - sb]
+        # signed modes: -skip_begin-1 is the last axis (only meaningful without skipped trailing modes), one below -ndim is rejected
+        neg = ([-sb - 1] if sb + 1 <= n else []) + [-n - sb - 1] if (se == 0 and sb < n) else []
+        for m in some(ms[:-1], 2) + ms[-1:] + neg:
             for rav in (False, True):
                 yield ("partial_unfold", m, sb, se, rav), s
                 if 0 <= m and m + sb + se < n:
                     yield ("partial_fold", m, s, sb, se, m, rav), s
-            if m < 0 or m + sb + se >= n:
+            if m < 0:
                 yield ("partial_fold", m, s, sb, se, m, False), s    # made only when the unfolding succeeded
         if n and sb + se < n:
             yield ("partial_fold", n, s, sb, se, 0, False), s        # invalid mode
-        if sb + se <= n:
+        if sb + se < n:
             yield ("partial_tensor_to_vec", sb, se), s
             yield ("partial_vec_to_tensor", s, sb, se), s
     if n:
@@ -309,6 +312,13 @@ def domain_ok(d, s):
         return sorted(rows + cols) == list(range(n))
     if k in REFOLD:
         return True if is_roundtrip(d, n) else None
+    if k in ("moveaxis", "moveaxis_generic"):
+        a, b = d[1], d[2]
+        if -n <= a < n and -n <= b < n:
+            return True
+        return False if (k == "moveaxis" or not -n <= a < n or b < -n) else None
+    if k == "transpose":
+        return sorted(d[1]) == list(range(n))
     return None
 
 
@@ -320,8 +330,8 @@ def spec_predicate(d, orig, out):
     s = orig.shape
     n = len(s)
     dom = domain_ok(d, s)
-    if st == "crash":
-        return f"{name}: crashed: {v}"
+    if st == "crash" and dom is True:
+        return f"{name}{d[1:]}: crashed inside the documented domain: {v}"
     if dom is True and st != "ok":
         return f"{name}{d[1:]}: a request inside the documented domain was rejected: {v}"
     if dom is False and st == "ok":
@@ -337,6 +347,25 @@ def spec_predicate(d, orig, out):
             return None
         if v.shape != orig.shape or v.tobytes() != np.ascontiguousarray(orig).tobytes():
             return f"{name}: round trip is not the identity"
+        return None
+    if name in ("moveaxis", "moveaxis_generic") and dom:
+        # Base/Tensor.v moveaxis: pop axis a, re-insert it at b (C01_moveaxis_generic: the generic fallback is the same function)
+        a, b = d[1] % n, d[2] % n
+        def mv(xs):
+            xs = list(xs); x = xs.pop(a); xs.insert(b, x); return tuple(xs)
+        if v.shape != mv(s):
+            return f"{name}{d[1:]}: shape {v.shape}"
+        for idx in np.ndindex(*s):
+            if v[mv(idx)] != orig[idx]:
+                return f"{name}{d[1:]}: entry {idx} at wrong place"
+        return None
+    if name == "transpose" and dom:
+        p = d[1]
+        if v.shape != tuple(s[j] for j in p):
+            return f"transpose{d[1:]}: shape {v.shape}"
+        for idx in np.ndindex(*s):
+            if v[tuple(idx[j] for j in p)] != orig[idx]:
+                return f"transpose{d[1:]}: entry {idx} at wrong place"
         return None
     if name in PRIMS:
         return None
@@ -455,6 +484,8 @@ def dtype_predicate(fn, a_int, out_int, dtype, layout="C"):
     a = vals[lab].reshape(a_int.shape) if n else np.empty(a_int.shape, dtype=dtype)   # the entry labelled p carries vals[p]
     a = relayout(a, layout)
     st, v = C.call_impl(fn, a)
+    if (st, v) == ("crash", "timeout"):
+        return None
     if st != "ok":
         return f"raised on dtype {np.dtype(dtype)} layout {layout}: {v}"
     if not isinstance(v, np.ndarray):
@@ -486,6 +517,8 @@ def judge(d, shape, combos):
         return None, []
     a_in, orig, prim = made
     out = C.call_impl(prim, a_in)
+    if out == ("crash", "timeout"):      # a stalled machine is not a verdict: the case is skipped and counted
+        return None, []
     msgs = []
     msg = spec_predicate(d, orig, out)
     if msg:
@@ -512,15 +545,15 @@ def run(chk):
     stream = itertools.chain(((tuple_deep(c["descr"]), tuple(c["shape"])) for c in corpus), gen_cases(tier, rng))
     for d, shape in stream:
         # dtype x layout: quick rotates through all 48 combinations per function (one per case), thorough runs
-        # every dtype on the C layout plus every layout on a rotating dtype
+        # four rotating dtypes on the C layout plus every other layout on a rotating dtype (seven re-runs per case)
         k = rot.get(d[0], 0); rot[d[0]] = k + 1
         if tier == "quick":
             combos = [all_combos[(k * 7) % len(all_combos)]]
         else:
-            combos = [(dt, "C") for dt in DTYPES] + [(DTYPES[k % len(DTYPES)], lay) for lay in LAYOUTS[1:]]
+            combos = [(DTYPES[(4 * k + j) % len(DTYPES)], "C") for j in range(4)] + [(DTYPES[(k + j) % len(DTYPES)], lay) for j, lay in enumerate(LAYOUTS[1:])]
         res, msgs = judge(d, shape, combos)
         if res is None:
-            chk.hist("outcome", "no-input(unfolding rejected)")
+            chk.hist("outcome", "no-input (the unfolding that makes the input is rejected, or a per-case timeout)")
             continue
         a_in, orig, out = res
         cid = len(cases)
@@ -541,7 +574,11 @@ def run(chk):
             inputs = {"shape": list(shape), "descr": repr(d)}
             inputs.update(extra)
             chk.finding(entry_point(d), inputs, msg, pred)
-    failing, n_eval, broken = C.run_case_shards("C01", HEADER, "case", cases, shard=800)
+    # the expensive cases (orders 5-11, up to 1024 entries) are generated last: deal the cases round-robin so that
+    # every shard gets its share of them (each literal carries its own id)
+    nsh = max(1, -(-len(cases) // 800))
+    dealt = [cases[i] for k in range(nsh) for i in range(k, len(cases), nsh)]
+    failing, n_eval, broken = C.run_case_shards("C01", HEADER, "case", dealt, shard=-(-len(dealt) // nsh))
     chk.checker_cmds.append("coqc (vm_compute) on generated build/cases/C01/*.v: Corr.C01.failing")
     chk.cov["traces_validated_against_impl"] = n_eval
     chk.cov["exhaustive"] = True
@@ -549,7 +586,8 @@ def run(chk):
     chk.cov["rule"] = ("every tensor shape of order 0-4 over mode sizes {1,2,3}, plus every shape of order 1-3 over {0,1,2,3} that has an empty mode "
                        "(thorough: order<=5, order 6 over {1,2}, +300 random shapes; order-4 shapes with an empty mode, orders 5-11 over {1,2} and orders 5-6 over {1,2,3} "
                        "are SAMPLED, not exhaustive) x every function of tensorly/base.py x every signed mode -n..n-1 (+1 invalid at either end) x every "
-                       "(skip_begin, skip_end, ravel) split x every ordered row/column split of matricize (order<=3; sampled above) + invalid requests "
+                       "(skip_begin, skip_end, ravel) split with every documented mode 0 <= mode < ndim-skip_begin-skip_end (plus one non-existent mode; requests whose moved axis overlaps a skipped block are garbage-in and not generated) "
+                       "x every ordered row/column split of matricize (order<=3; sampled above) + invalid requests "
                        "+ the backend primitives moveaxis (NumPy and the generic Backend.moveaxis) / transpose / reshape; entries are the distinct integers 0..n-1 so "
                        "one run decides the shape for all values; each successful case is re-run on other dtypes / memory layouts (C, F, strided, negative strides) and must "
                        "give the same re-arrangement of the same bytes; a case is non-trivial if the tensor has more than one entry or the request is rejected; "
